@@ -54,6 +54,11 @@ func genC18(t *rapid.T) E1Case {
 	if live {
 		c.Tasks = append(c.Tasks, E1Task{Role: "canceller", Ops: []E1Op{{Op: "cancelctx"}}})
 	}
+	if rapid.IntRange(0, 5).Draw(t, "parentcancel") == 0 {
+		// the context the channel was created from ends (what Shutdown does first): the channel's own context is done,
+		// which releases every writer waiting for queue space, with or without a context of its own
+		c.Tasks = append(c.Tasks, E1Task{Role: "canceller", Ops: []E1Op{{Op: "cancelparent"}}})
+	}
 	if rapid.IntRange(0, 3).Draw(t, "withclose") == 0 {
 		c.Tasks = append(c.Tasks, E1Task{Role: "closer", Ops: []E1Op{{Op: "close", Err: rapid.SampledFrom(closeErrKinds).Draw(t, "cerr")}}})
 		c.Futile = 1
